@@ -1,6 +1,9 @@
 (* C06 — multipart parsing is independent of how the body is split into reads.
-   Only statements; proofs are in proofs/C06_*.v. *)
-From Verif Require Import lib.Base lib.Str gen.Gen model.MultipartRef model.Multipart proofs.C06_model_pins.
+   Only statements; proofs are in proofs/C06_*.v.  Model: model/Multipart.v
+   (streaming parser, fixes F6+F7 applied), spec: model/MultipartRef.v ([ref],
+   the one-piece scanner built on [findb] only, and [wf_prefix]). *)
+From Verif Require Import lib.Base lib.Str gen.Gen model.MultipartRef model.Multipart
+  proofs.C06_pattern proofs.C06_model_pins proofs.C06_core proofs.C06_global.
 
 (* the regular expression re-implemented by Multipart.hsearch is the one in the source *)
 Theorem C06_end_headers_regex_pinned :
@@ -9,3 +12,155 @@ Theorem C06_end_headers_regex_pinned :
    40; 92; 114; 40; 92; 110; 92; 114; 63; 41; 63; 41; 36]%N.
 Proof. exact end_headers_patt_pinned. Qed.
 Print Assumptions C06_end_headers_regex_pinned.
+
+(* ---- search core ---- *)
+
+(* [ends_with_prefix t s k]: the last k bytes of s are the first k bytes of t.
+   Because CR occurs once in CRLF--B, a window ends with at most one prefix of
+   the delimiter: the candidate carried across a block/chunk border is unique. *)
+Theorem C06_match_tail_unique :
+  forall (B w : bytes) (i j : nat),
+    contains_char N.eqb CR B = false ->
+    0 < i -> 0 < j -> i <= length (token B) -> j <= length (token B) ->
+    ends_with_prefix (token B) w i -> ends_with_prefix (token B) w j -> i = j.
+Proof. exact match_tail_unique_lemma. Qed.
+Print Assumptions C06_match_tail_unique.
+
+(* MatchTail.match_tail on a non-empty window not longer than the delimiter
+   returns that unique length, or None when there is none. *)
+Theorem C06_match_tail_spec :
+  forall (B s : bytes) (start end_ : nat),
+    contains_char N.eqb CR B = false ->
+    start < end_ -> end_ <= length s -> end_ - start <= length (token B) ->
+    let w := slice s start end_ in
+    match match_tail (token B) s start end_ with
+    | Some i => 0 < i /\ ends_with_prefix (token B) w i
+    | None => forall i, 0 < i -> i <= length (token B) -> ~ ends_with_prefix (token B) w i
+    end.
+Proof. exact match_tail_spec_lemma. Qed.
+Print Assumptions C06_match_tail_spec.
+
+(* BodyMarkuper._eat_data: the block-wise search with a carried remainder
+   (trest = token[m:], m = 0: nothing carried) returns the FIRST occurrence of
+   the delimiter in  token[:m] ++ chunk[base:]  (position relative to the chunk,
+   hence possibly negative), and otherwise leaves in trest the remainder owed by
+   the LONGEST partial match at the end ([carry_len], characterised by
+   carry_len_some / carry_len_none below).  Every chunk, every base, every m. *)
+Theorem C06_eat_data_spec :
+  forall (B chunk : bytes) (base m : nat),
+    contains_char N.eqb CR B = false ->
+    m < length (token B) ->
+    let tok := token B in
+    let D := firstn m tok ++ skipn base chunk in
+    eat_data tok chunk base (tr_of_len tok m) =
+    match findb tok D with
+    | Some q => (EFound (Z.of_nat base + Z.of_nat q - Z.of_nat m)%Z, None)
+    | None => (ENone, trest_of tok (carry_len tok D))
+    end.
+Proof. exact eat_data_spec_lemma. Qed.
+Print Assumptions C06_eat_data_spec.
+
+Theorem C06_carry_is_longest_partial_match :
+  forall (t s : bytes) (k : nat),
+    carry_len t s = Some k ->
+    0 < k /\ k < length t /\ ends_with_prefix t s k /\
+    forall k', k < k' -> k' <= length t -> ~ ends_with_prefix t s k'.
+Proof. exact carry_len_some. Qed.
+Print Assumptions C06_carry_is_longest_partial_match.
+
+Theorem C06_no_carry_means_no_partial_match :
+  forall (t s : bytes),
+    t <> [] -> findb t s = None -> carry_len t s = None ->
+    forall k, 0 < k -> k <= length t -> ~ ends_with_prefix t s k.
+Proof. exact carry_len_none. Qed.
+Print Assumptions C06_no_carry_means_no_partial_match.
+
+(* HeadersEaeter._eat_headers: regex scanner + carried suffix of CRLFCRLF
+   (headers_end_expected = CRLFCRLF[k:], k = 0: none; the code only ever calls it
+   with base = 0 when something is expected) finds the first CRLFCRLF in
+   CRLFCRLF[:k] ++ chunk[base:], else carries the longest partial match — provided
+   that text is [hdr_clean] (no "CR LF LF", "CR LF CR" only before LF or the end);
+   otherwise the code is knowingly split dependent (see MultipartRef.v). *)
+Theorem C06_eat_headers_spec :
+  forall (chunk : bytes) (base k : nat),
+    k < 4 -> (0 < k -> base = 0) ->
+    let D := firstn k H4 ++ skipn base chunk in
+    hdr_clean D = true ->
+    eat_headers chunk base (tr_of_len H4 k) =
+    match findb H4 D with
+    | Some e => (EFound (Z.of_nat base + Z.of_nat e - Z.of_nat k)%Z, None)
+    | None => (ENone, trest_of H4 (carry_len H4 D))
+    end.
+Proof. exact eat_headers_spec_lemma. Qed.
+Print Assumptions C06_eat_headers_spec.
+
+(* non-vacuity: boundary "abab" (self-overlapping), carried "\r\n--ab", the chunk
+   continues with "ab" and the delimiter is found at chunk position -6 *)
+Example C06_eat_data_nonvacuous :
+  eat_data (token [97;98;97;98]%N) [97;98;13;10;120]%N 0 (tr_of_len (token [97;98;97;98]%N) 6)
+  = (EFound (-6)%Z, None).
+Proof. vm_compute. reflexivity. Qed.
+
+Example C06_eat_headers_nonvacuous :
+  eat_headers [10;13;10;120]%N 0 (tr_of_len H4 1) = (EFound (-1)%Z, None)
+  /\ hdr_clean (firstn 1 H4 ++ [10;13;10;120]%N) = true.
+Proof. vm_compute. split; reflexivity. Qed.
+
+(* ---- the property ---- *)
+
+(* For every boundary and every division of a well-formed body prefix
+   ([wf_prefix], model/MultipartRef.v — in particular CR does not occur in the
+   boundary) into chunks — any number of chunks, empty ones included — the
+   streaming parser ends with exactly the sections and the error (none) that the
+   one-piece reference scanner [ref] computes on the concatenation. *)
+Theorem C06_stream_eq_ref :
+  forall (B : bytes) (chunks : list bytes),
+    wf_prefix B (concat chunks) ->
+    markup_chunks B chunks = ref_obs B (concat chunks).
+Proof. exact stream_eq_ref. Qed.
+Print Assumptions C06_stream_eq_ref.
+
+(* Corollary: the result does not depend on how the bytes were divided. *)
+Theorem C06_split_independent :
+  forall (B : bytes) (chunks : list bytes),
+    wf_prefix B (concat chunks) ->
+    markup_chunks B chunks = markup_chunks B [concat chunks].
+Proof. exact split_independent. Qed.
+Print Assumptions C06_split_independent.
+
+Theorem C06_split_independent_pairwise :
+  forall (B : bytes) (chunks chunks' : list bytes),
+    concat chunks = concat chunks' ->
+    wf_prefix B (concat chunks) ->
+    markup_chunks B chunks = markup_chunks B chunks'.
+Proof. exact split_independent_pairwise. Qed.
+Print Assumptions C06_split_independent_pairwise.
+
+(* ---- non-vacuity: concrete well-formed bodies, cut inside the closing delimiter
+   (the F6 and F7 positions), with three sections and no error ---- *)
+Example C06_nonvacuous_simple :
+  wf_prefix [66]%N (concat [[45;45;66;13;10;65;58;32;98;13;10;13;10;100;97;116;97;13;10;45;45;66;45]%N; [45]%N; [13;10]%N])
+  /\ markup_chunks [66]%N [[45;45;66;13;10;65;58;32;98;13;10;13;10;100;97;116;97;13;10;45;45;66;45]%N; [45]%N; [13;10]%N]
+     = ([(Data, 0, 0); (Headers, 5, 9); (Data, 13, 17)]%Z, None).
+Proof. vm_compute. split; reflexivity. Qed.
+
+(* self-overlapping boundary "abab", data full of delimiter look-alikes, byte at a time *)
+Example C06_nonvacuous_abab :
+  let body := [45;45;97;98;97;98;13;10;107;58;32;118;13;10;13;10;13;10;45;45;97;98;13;10;45;45;97;98;97;13;10;45;45;113;13;10;45;45;97;13;10;45;45;97;98;97;98;13;10;13;13;10;13;10;13;10;45;45;97;98;97;13;10;45;45;97;98;97;98;45;45]%N in
+  wf_prefix [97;98;97;98]%N body
+  /\ markup_chunks [97;98;97;98]%N (map (fun x => [x]) body) = ref_obs [97;98;97;98]%N body
+  /\ length (fst (ref_obs [97;98;97;98]%N body)) = 5.
+Proof. vm_compute. repeat split; reflexivity. Qed.
+
+(* boundary "-" *)
+Example C06_nonvacuous_dash :
+  let body := [45;45;45;13;10;97;58;32;49;13;10;13;10;45;45;13;10;45;13;10;45;45;120;13;13;10;45;45;45;13;10;45;13;10;13;10;13;10;45;45;45;45;45;45]%N in
+  wf_prefix [45]%N body
+  /\ markup_chunks [45]%N (map (fun x => [x]) body) = ref_obs [45]%N body
+  /\ length (fst (ref_obs [45]%N body)) = 5.
+Proof. vm_compute. repeat split; reflexivity. Qed.
+
+(* the body of the repository's test suite, 7 bytes at a time *)
+Example C06_nonvacuous_suite_body :
+  wf_prefix [45;45;45;45;87;101;98;75;105;116;70;111;114;109;66;111;117;110;100;97;114;121;101;80;107;112;70;70;55;116;106;66;65;113;120;50;57;76]%N (concat [[45;45;45;45;45;45;87]%N; [101;98;75;105;116;70;111]%N; [114;109;66;111;117;110;100]%N; [97;114;121;101;80;107;112]%N; [70;70;55;116;106;66;65]%N; [113;120;50;57;76;13;10]%N; [67;111;110;116;101;110;116]%N; [45;68;105;115;112;111;115]%N; [105;116;105;111;110;58;32]%N; [102;111;114;109;45;100;97]%N; [116;97;59;32;110;97;109]%N; [101;61;34;116;101;120;116]%N; [49;34;13;10;13;10;97]%N; [98;99;13;10;45;45;45]%N; [45;45;45;87;101;98;75]%N; [105;116;70;111;114;109;66]%N; [111;117;110;100;97;114;121]%N; [101;80;107;112;70;70;55]%N; [116;106;66;65;113;120;50]%N; [57;76;13;10;67;111;110]%N; [116;101;110;116;45;68;105]%N; [115;112;111;115;105;116;105]%N; [111;110;58;32;102;111;114]%N; [109;45;100;97;116;97;59]%N; [32;110;97;109;101;61;34]%N; [102;105;108;101;49;34;59]%N; [32;102;105;108;101;110;97]%N; [109;101;61;34;97;46;116]%N; [120;116;34;13;10;67;111]%N; [110;116;101;110;116;45;84]%N; [121;112;101;58;32;116;101]%N; [120;116;47;112;108;97;105]%N; [110;13;10;13;10;60;33]%N; [68;79;67;84;89;80;69]%N; [32;104;116;109;108;62;60]%N; [116;105;116;108;101;62;67]%N; [111;110;116;101;110;116;32]%N; [111;102;32;97;46;116;120]%N; [116;46;60;47;116;105;116]%N; [108;101;62;13;10;13;10]%N; [45;45;45;45;45;45;87]%N; [101;98;75;105;116;70;111]%N; [114;109;66;111;117;110;100]%N; [97;114;121;101;80;107;112]%N; [70;70;55;116;106;66;65]%N; [113;120;50;57;76;45;45]%N; [13;10]%N]) /\ length (fst (markup_chunks [45;45;45;45;87;101;98;75;105;116;70;111;114;109;66;111;117;110;100;97;114;121;101;80;107;112;70;70;55;116;106;66;65;113;120;50;57;76]%N [[45;45;45;45;45;45;87]%N; [101;98;75;105;116;70;111]%N; [114;109;66;111;117;110;100]%N; [97;114;121;101;80;107;112]%N; [70;70;55;116;106;66;65]%N; [113;120;50;57;76;13;10]%N; [67;111;110;116;101;110;116]%N; [45;68;105;115;112;111;115]%N; [105;116;105;111;110;58;32]%N; [102;111;114;109;45;100;97]%N; [116;97;59;32;110;97;109]%N; [101;61;34;116;101;120;116]%N; [49;34;13;10;13;10;97]%N; [98;99;13;10;45;45;45]%N; [45;45;45;87;101;98;75]%N; [105;116;70;111;114;109;66]%N; [111;117;110;100;97;114;121]%N; [101;80;107;112;70;70;55]%N; [116;106;66;65;113;120;50]%N; [57;76;13;10;67;111;110]%N; [116;101;110;116;45;68;105]%N; [115;112;111;115;105;116;105]%N; [111;110;58;32;102;111;114]%N; [109;45;100;97;116;97;59]%N; [32;110;97;109;101;61;34]%N; [102;105;108;101;49;34;59]%N; [32;102;105;108;101;110;97]%N; [109;101;61;34;97;46;116]%N; [120;116;34;13;10;67;111]%N; [110;116;101;110;116;45;84]%N; [121;112;101;58;32;116;101]%N; [120;116;47;112;108;97;105]%N; [110;13;10;13;10;60;33]%N; [68;79;67;84;89;80;69]%N; [32;104;116;109;108;62;60]%N; [116;105;116;108;101;62;67]%N; [111;110;116;101;110;116;32]%N; [111;102;32;97;46;116;120]%N; [116;46;60;47;116;105;116]%N; [108;101;62;13;10;13;10]%N; [45;45;45;45;45;45;87]%N; [101;98;75;105;116;70;111]%N; [114;109;66;111;117;110;100]%N; [97;114;121;101;80;107;112]%N; [70;70;55;116;106;66;65]%N; [113;120;50;57;76;45;45]%N; [13;10]%N])) = 5.
+Proof. vm_compute. split; reflexivity. Qed.
